@@ -562,3 +562,21 @@ func (c *Client) Stress(q *StressReq) (*StressRsp, error) {
 	err := c.Call("Stress", q, &r)
 	return &r, err
 }
+
+// ProduceEmpty builds and connects n empty blocks on the best block (to move the chain past
+// block-number based lock periods).
+func (s *Svc) ProduceEmpty(n *int, r *string) error {
+	for i := 0; i < *n; i++ {
+		rsp := s.n.Produce(&ProduceReq{Connect: true, Confirms: -1, SignKey: -1})
+		if rsp.Panic != "" || rsp.GenErr != "" || rsp.AddErr != "" {
+			*r = rsp.Panic + rsp.GenErr + rsp.AddErr
+			return nil
+		}
+	}
+	return nil
+}
+func (c *Client) ProduceEmpty(n int) (string, error) {
+	var r string
+	err := c.Call("ProduceEmpty", &n, &r)
+	return r, err
+}
